@@ -141,6 +141,17 @@ def run_history(src, subname, family, steps):
             continue
         try:
             trans.apply(target, options or None)
+            if opts.get("enclose") and kind == "loop":
+                # compound step: put the new loop directive into its own
+                # parallel region straight away (the common usage)
+                import psyclone.transformations as PT
+                directive = target.parent.parent
+                region = PT.OMPParallelTrans() if family == "omp" \
+                    else PT.ACCParallelTrans()
+                try:
+                    region.apply(directive)
+                except TransformationError:
+                    pass
         except TransformationError:
             continue
         except Exception as err:        # pylint: disable=broad-except
@@ -314,6 +325,8 @@ def cases(draw):
         opts["schedule"] = draw(st.sampled_from(
             ["static", "dynamic", "guided", "auto", "runtime"]))
         opts["flag"] = draw(st.booleans())
+        if name in ("omp_do", "omp_loop", "omp_taskloop", "acc_loop"):
+            opts["enclose"] = draw(st.integers(0, 2)) > 0
         if name == "omp_taskloop":
             which = draw(st.integers(0, 2))
             if which == 1:
